@@ -4,6 +4,8 @@
 //   mode        : 0 = A: allocator scripts on ONE shared JitAllocator
 //                 1 = B: threads add/call/release tiny functions through ONE shared JitRuntime
 //                 2 = C: every thread owns CodeHolder + emitter/compiler; bytes must equal the single-threaded reference
+//                 3 = cold start (exactly 3; every other value decodes modulo 3 as before): first use of the library by N
+//                     threads at once in a fresh process, see "Cold start" below for its cfg/ops
 //   nthreads    : 2..16 (clamped)
 //   option_bits : 1 dual mapping, 2 multiple pools, 4 fill unused, 8 immediate release, 16 large pages, 32 custom fill pattern
 //   final_mode  : order in which every thread releases its remaining spans in the concurrent release phase (0 FIFO, 1 LIFO, 2 mixed)
@@ -1435,12 +1437,628 @@ static void run_mode_codegen(const vh::Case& c, vh::Ctx& ctx) {
 
 } // namespace
 
+//@@MODE_COLD@@
+// ====================================================================================================================
+// Cold start (cfg[0] == 3): the FIRST use of the library in a process, made by N threads at once.
+//
+// The lazily initialised process-wide state (CpuInfo::host(), VirtMem::info(), large-page size, anonymous-memory strategy /
+// memfd probes, hardened-runtime detection) can only be raced once per process, and the worker process initialises all of it
+// on its main thread (host_init) for the modes A-C. A cold-start case is therefore executed in a FRESH process: the worker
+// re-executes its own binary (/proc/self/exe --coldstart=<scenario>; fork alone would inherit the initialised statics).
+// In the child N threads are released together and every thread performs, as its very first library action, its generated
+// operation(s). After all threads were joined the child repeats every operation single-threaded and compares:
+//   * every observation made by a thread must equal the observation of the same operation made alone (key coldstart-differs:<op>)
+//   * and must be sane (key coldstart-insane:<op>): host arch known, CPU features non-empty, page size > 0 ...
+//   * the child is this same ThreadSanitizer build: a report ends it with exit code 97 (key coldstart-race:<global or function>)
+// The parent decides nothing but "what did the child say": the scenario is a pure function of the Case.
+//
+// Case: cfg = [3, nthreads, -]   ops = [thread, operation, a, b, spin]   (at most kColdMaxOpsPerThread ops per thread, in order;
+//   spin = start staggering in units of 4 PAUSE instructions, executed before the operation; no clock anywhere)
+// ====================================================================================================================
+#include <fcntl.h>
+#include <signal.h>
+#include <sys/mman.h>
+#include <sys/wait.h>
+#include <unistd.h>
+
+extern char** environ;
+
+namespace {
+
+enum : int { M_COLD = 3 };
+enum : int { C_CPUINFO = 0, C_RUNTIME, C_VMINFO, C_LARGEPAGE, C_ALLOCATOR, C_RT_ADD, C_ENVHOST, C_HARDENED, C_DUALMAP, C_COUNT };
+static const char* const kColdNames[C_COUNT] = {"cpuinfo", "runtime", "vminfo", "large_page_size", "allocator", "rt_add", "env_host", "hardened_runtime", "dual_mapping"};
+constexpr size_t kColdMaxOpsPerThread = 4;
+constexpr uint32_t kColdMaxSpin = 2047;
+
+struct ColdOp { uint32_t thread = 0; int op = 0; uint32_t a = 0, b = 0, spin = 0; };
+struct ColdScenario { uint32_t n = 2; std::vector<ColdOp> ops; };
+
+static bool is_cold_case(const vh::Case& c) { return !c.cfg.empty() && c.cfg[0] == M_COLD; }
+
+static ColdScenario decode_cold(const vh::Case& c) {
+  ColdScenario sc;
+  sc.n = thread_count(c);
+  std::vector<size_t> per(sc.n, 0);
+  for (const vh::Op& op : c.ops) {
+    if (op.size() < 2) continue;
+    ColdOp o;
+    o.thread = uint32_t(u(op[0]) % sc.n);
+    o.op = int(u(op[1]) % C_COUNT);
+    o.a = uint32_t(u(arg(op, 2)) & 0xFFFF);
+    o.b = uint32_t(u(arg(op, 3)) & 0xFFFF);
+    o.spin = uint32_t(u(arg(op, 4)) % (kColdMaxSpin + 1));
+    if (per[o.thread] >= kColdMaxOpsPerThread) continue;
+    per[o.thread]++;
+    sc.ops.push_back(o);
+  }
+  return sc;
+}
+
+static std::string encode_cold(const ColdScenario& sc) {
+  std::string s = std::to_string(sc.n);
+  for (const ColdOp& o : sc.ops) {
+    char b[96];
+    snprintf(b, sizeof b, ":%u,%d,%u,%u,%u", o.thread, o.op, o.a, o.b, o.spin);
+    s += b;
+  }
+  return s;
+}
+
+static ColdScenario parse_cold(const std::string& text) {
+  ColdScenario sc;
+  size_t p = 0;
+  auto num = [&]() -> uint64_t { uint64_t v = 0; while (p < text.size() && text[p] >= '0' && text[p] <= '9') v = v * 10 + uint64_t(text[p++] - '0'); return v; };
+  sc.n = uint32_t(std::min<uint64_t>(16, std::max<uint64_t>(2, num())));
+  while (p < text.size() && text[p] == ':') {
+    p++;
+    uint64_t v[5] = {0, 0, 0, 0, 0};
+    for (int i = 0; i < 5; i++) { v[i] = num(); if (i < 4 && p < text.size() && text[p] == ',') p++; }
+    ColdOp o;
+    o.thread = uint32_t(v[0] % sc.n); o.op = int(v[1] % C_COUNT); o.a = uint32_t(v[2] & 0xFFFF); o.b = uint32_t(v[3] & 0xFFFF); o.spin = uint32_t(v[4] % (kColdMaxSpin + 1));
+    sc.ops.push_back(o);
+  }
+  return sc;
+}
+
+// ---- the operations (child process only) ------------------------------------------------------------------------------
+static void appendf(std::string& s, const char* fmt, ...) __attribute__((format(printf, 2, 3)));
+static void appendf(std::string& s, const char* fmt, ...) {
+  char b[512];
+  va_list ap; va_start(ap, fmt); vsnprintf(b, sizeof b, fmt, ap); va_end(ap);
+  s += b;
+}
+
+static unsigned feature_count(const CpuFeatures& f) {
+  unsigned n = 0;
+  CpuFeatures::Iterator it = f.iterator();
+  while (it.has_next()) { (void)it.next(); n++; }
+  return n;
+}
+
+static void append_features(std::string& s, const CpuFeatures& f) {
+  appendf(s, " nfeatures=%u features=", feature_count(f));
+  const uint8_t* p = reinterpret_cast<const uint8_t*>(&f);
+  for (size_t i = 0; i < sizeof(CpuFeatures); i++) appendf(s, "%02x", p[i]);
+}
+
+static void append_env(std::string& s, const Environment& e) {
+  appendf(s, " env{arch=%u sub_arch=%u vendor=%u platform=%u abi=%u object_format=%u packed=%llx}", unsigned(e.arch()), unsigned(e.sub_arch()), unsigned(e.vendor()),
+          unsigned(e.platform()), unsigned(e.platform_abi()), unsigned(e.object_format()), (unsigned long long)e._packed());
+}
+
+static bool pow2(uint64_t v) { return v && !(v & (v - 1)); }
+
+static JitAllocator::CreateParams cold_params(uint32_t a, uint32_t b) {
+  JitAllocator::CreateParams p;
+  JitAllocatorOptions o = JitAllocatorOptions::kNone;
+  if (a & O_DUAL) o |= JitAllocatorOptions::kUseDualMapping;
+  if (a & O_MULTI) o |= JitAllocatorOptions::kUseMultiplePools;
+  if (a & O_FILL) o |= JitAllocatorOptions::kFillUnusedMemory;
+  if (a & O_IMMEDIATE) o |= JitAllocatorOptions::kImmediateRelease;
+  if (a & O_LARGE) o |= JitAllocatorOptions::kUseLargePages;
+  if (a & O_CUSTOM) o |= JitAllocatorOptions::kCustomFillPattern;
+  if ((a & O_LARGE) && (a & 0x40)) o |= JitAllocatorOptions::kAlignBlockSizeToLargePage;   // really tries a large-page mapping (falls back to regular pages)
+  p.options = o;
+  p.block_size = kBlockSel[b % 4];
+  p.granularity = kGranSel[(b / 4) % 4];
+  p.fill_pattern = 0x0BADC0DEu;
+  return p;
+}
+
+// Performs one operation and renders everything a caller can observe (no addresses). `bad` receives the first sanity complaint.
+static std::string cold_observe(const ColdOp& o, std::string& bad) {
+  std::string s;
+  auto insane = [&](const char* what) { if (bad.empty()) bad = what; };
+  switch (o.op) {
+    case C_CPUINFO: {
+      CpuInfo ci = CpuInfo::host();                       // what a caller copying the host information obtains
+      appendf(s, "arch=%u sub_arch=%u was_detected=%d vendor='%.16s' brand='%.64s' family=%u model=%u brand_id=%u stepping=%u processor_type=%u max_logical=%u cache_line=%u hw_threads=%u hints=%x",
+              unsigned(ci.arch()), unsigned(ci.sub_arch()), int(ci.was_detected()), ci.vendor(), ci.brand(), ci.family_id(), ci.model_id(), ci.brand_id(), ci.stepping(),
+              ci.processor_type(), ci.max_logical_processors(), ci.cache_line_size(), ci.hw_thread_count(), unsigned(ci.hints()));
+      append_features(s, ci.features());
+      if (ci.arch() != Arch::kHost) insane("CpuInfo::host().arch() is not the host architecture");
+      else if (feature_count(ci.features()) == 0) insane("CpuInfo::host().features() is empty");
+      else if (ci.hw_thread_count() == 0) insane("CpuInfo::host().hw_thread_count() is 0");
+      else if (ci.vendor()[0] == 0) insane("CpuInfo::host().vendor() is empty");
+      break;
+    }
+    case C_RUNTIME: {
+      JitAllocator::CreateParams p = cold_params(o.a & ~uint32_t(O_LARGE), o.b);
+      std::unique_ptr<JitRuntime> rt((o.a & 0x100) ? new JitRuntime(&p) : new JitRuntime());
+      appendf(s, "%s hints=%x", (o.a & 0x100) ? "JitRuntime(params)" : "JitRuntime()", unsigned(rt->cpu_hints()));
+      append_features(s, rt->cpu_features());
+      append_env(s, rt->environment());
+      appendf(s, " allocator{options=%x granularity=%u block_size=%u}", unsigned(rt->allocator().options()), rt->allocator().granularity(), rt->allocator().block_size());
+      if (rt->arch() != Arch::kHost) insane("JitRuntime::arch() is not the host architecture");
+      else if (feature_count(rt->cpu_features()) == 0) insane("JitRuntime::cpu_features() is empty");
+      else if (rt->environment().object_format() != ObjectFormat::kJIT) insane("JitRuntime::environment().object_format() is not kJIT");
+      else if (!pow2(rt->allocator().granularity()) || rt->allocator().block_size() == 0) insane("JitRuntime's allocator has no granularity / block size");
+      break;
+    }
+    case C_VMINFO: {
+      VirtMem::Info vi = VirtMem::info();
+      appendf(s, "page_size=%u page_granularity=%u", vi.page_size, vi.page_granularity);
+      if (!pow2(vi.page_size) || long(vi.page_size) != sysconf(_SC_PAGESIZE)) insane("VirtMem::info().page_size is not the system page size");
+      else if (!pow2(vi.page_granularity) || vi.page_granularity < vi.page_size) insane("VirtMem::info().page_granularity is not a power of two >= page_size");
+      break;
+    }
+    case C_LARGEPAGE: {
+      size_t lp = VirtMem::large_page_size();
+      appendf(s, "large_page_size=%zu", lp);
+      if (lp != 0 && (!pow2(lp) || long(lp) <= sysconf(_SC_PAGESIZE))) insane("VirtMem::large_page_size() is neither 0 nor a power of two above the page size");
+      break;
+    }
+    case C_ALLOCATOR: {
+      JitAllocator::CreateParams p = cold_params(o.a, o.b);
+      JitAllocator A(&p);
+      size_t req = 1 + size_t(o.b >> 4);
+      uint32_t G = A.granularity();
+      appendf(s, "options=%x granularity=%u block_size=%u fill_pattern=%08x alloc(%zu)", unsigned(A.options()), G, A.block_size(), A.fill_pattern(), req);
+      if (!pow2(G) || A.block_size() == 0) { insane("JitAllocator has no granularity / block size"); break; }
+      Span sp;
+      Error e = A.alloc(Out(sp), req);
+      appendf(s, " error=%u", unsigned(e));
+      if (e != Error::kOk) { if (!(o.a & O_DUAL)) insane("JitAllocator::alloc failed (no dual mapping requested)"); break; }
+      bool dual = sp.rw() != sp.rx();
+      appendf(s, " size=%zu dual_views=%d", sp.size(), int(dual));
+      if (!sp.rx() || !sp.rw() || sp.size() != align_up(req, G)) insane("JitAllocator::alloc returned a null / wrongly sized span");
+      if (dual != ((o.a & O_DUAL) != 0)) insane("rw()/rx() views do not match kUseDualMapping");
+      if (o.a & O_FILL) {
+        bool filled = true;
+        uint32_t pat = A.fill_pattern();
+        const uint8_t* m = static_cast<const uint8_t*>(sp.rx());
+        for (size_t i = 0; i < sp.size(); i++) if (m[i] != reinterpret_cast<const uint8_t*>(&pat)[(uintptr_t(m) + i) & 3]) filled = false;
+        appendf(s, " fresh_span_filled=%d", int(filled));
+        if (!filled) insane("fresh span is not filled with the fill pattern (kFillUnusedMemory)");
+      }
+      std::vector<uint8_t> buf(sp.size());
+      gen_bytes(buf.data(), buf.size(), (uint64_t(o.a) << 16) | o.b);
+      Error we = A.write(sp, 0, buf.data(), buf.size());
+      bool same = we == Error::kOk && memcmp(sp.rx(), buf.data(), buf.size()) == 0;
+      Stats st = A.statistics();
+      appendf(s, " write_error=%u readback=%d allocations=%zu blocks=%zu", unsigned(we), int(same), st.allocation_count(), st.block_count());
+      if (!same) insane("bytes written through JitAllocator::write are not visible through rx()");
+      if (st.allocation_count() != 1 || st.block_count() != 1) insane("statistics() of a private allocator with one span is not 1 allocation / 1 block");
+      Error re = A.release(sp.rx());
+      appendf(s, " release_error=%u allocations_after=%zu", unsigned(re), A.statistics().allocation_count());
+      if (re != Error::kOk || A.statistics().allocation_count() != 0) insane("JitAllocator::release failed");
+      break;
+    }
+    case C_RT_ADD: {
+      JitRuntime rt;
+      int value = int(o.a) * 3 - 70000;
+      int shape = int(o.b % 3);
+      CodeHolder code;
+      Error ie = code.init(rt.environment(), rt.cpu_features());
+      appendf(s, "shape=%d init_error=%u", shape, unsigned(ie));
+      append_features(s, rt.cpu_features());
+      if (feature_count(rt.cpu_features()) == 0) insane("JitRuntime::cpu_features() is empty");
+      if (ie != Error::kOk) { insane("CodeHolder::init(rt.environment(), rt.cpu_features()) failed"); break; }
+      Error ge = Error::kOk;
+      if (shape == 2) {
+        x86::Compiler cc(&code);
+        cc.add_func(FuncSignature::build<int>());
+        x86::Gp a = cc.new_gp32("a"), b = cc.new_gp32("b");
+        x86::Vec v = cc.new_xmm("v");
+        cc.mov(a, value - 5);
+        cc.mov(b, 5);
+        cc.movd(v, b);
+        cc.paddd(v, v);
+        cc.movd(b, v);
+        cc.add(a, b);
+        cc.sub(a, 5);
+        cc.ret(a);
+        cc.end_func();
+        ge = cc.finalize();
+      } else {
+        x86::Assembler a(&code);
+        if (shape == 0) { a.mov(x86::eax, value); ge = a.ret(); }
+        else { a.mov(x86::eax, int32_t(uint32_t(value) ^ 0x5A5A5A5Au)); a.xor_(x86::eax, int32_t(0x5A5A5A5A)); ge = a.ret(); }
+      }
+      const Section* text = code.text_section();
+      appendf(s, " codegen_error=%u code_size=%zu code_hash=%016llx", unsigned(ge), code.code_size(), (unsigned long long)vh::fnv1a(text->data(), text->buffer_size()));
+      if (ge != Error::kOk) { insane("generating a tiny function failed"); break; }
+      void* fn = nullptr;
+      Error ae = rt.add(&fn, &code);
+      appendf(s, " add_error=%u", unsigned(ae));
+      if (ae != Error::kOk || !fn) { insane("JitRuntime::add failed"); break; }
+      int got = reinterpret_cast<int (*)(void)>(fn)();
+      Error re = rt.release(fn);
+      appendf(s, " returned=%d release_error=%u", got, unsigned(re));
+      if (got != value) insane("the function added through JitRuntime::add returned a wrong value");
+      if (re != Error::kOk) insane("JitRuntime::release failed");
+      break;
+    }
+    case C_ENVHOST: {
+      Environment e = Environment::host();
+      append_env(s, e);
+      if (e.arch() != Arch::kHost) insane("Environment::host().arch() is not the host architecture");
+      break;
+    }
+    case C_HARDENED: {
+      VirtMem::HardenedRuntimeInfo hi = VirtMem::hardened_runtime_info();
+      appendf(s, "hardened_runtime_flags=%x", unsigned(hi.flags));
+      break;
+    }
+    default: {
+      size_t size = size_t(65536) << (o.a % 3);
+      VirtMem::DualMapping dm{};
+      Error e = VirtMem::alloc_dual_mapping(Out(dm), size, VirtMem::MemoryFlags::kAccessRWX);
+      appendf(s, "alloc_dual_mapping(%zu) error=%u", size, unsigned(e));
+      if (e != Error::kOk) break;                         // not available in this environment: must simply be the same answer alone
+      bool distinct = dm.rx && dm.rw && dm.rx != dm.rw;
+      bool visible = false;
+      if (distinct) {
+        uint8_t pat[64];
+        gen_bytes(pat, sizeof pat, o.a * 977u + o.b);
+        memcpy(static_cast<uint8_t*>(dm.rw) + (o.b % 1000) * 64, pat, sizeof pat);
+        visible = memcmp(static_cast<const uint8_t*>(dm.rx) + (o.b % 1000) * 64, pat, sizeof pat) == 0;
+      }
+      Error re = VirtMem::release_dual_mapping(dm, size);
+      appendf(s, " distinct_views=%d write_visible_through_rx=%d release_error=%u", int(distinct), int(visible), unsigned(re));
+      if (!distinct) insane("alloc_dual_mapping returned null or identical views");
+      else if (!visible) insane("bytes written through the rw view are not visible through the rx view");
+      if (re != Error::kOk) insane("release_dual_mapping failed");
+      break;
+    }
+  }
+  return s;
+}
+
+struct ColdThread {
+  std::vector<ColdOp> script;
+  std::vector<std::string> obs, bad;
+  int max_inside = 0;
+};
+
+// The child process: never returns. Nothing of AsmJit has been touched when the threads are released.
+[[noreturn]] static void cold_child_main(const std::string& text) {
+  alarm(150);                                             // safety net only: a hang ends the child with SIGALRM
+  ColdScenario sc = parse_cold(text);
+  std::vector<ColdThread> ths(sc.n);
+  for (const ColdOp& o : sc.ops) if (ths[o.thread].script.size() < kColdMaxOpsPerThread) ths[o.thread].script.push_back(o);
+  for (ColdThread& t : ths) { t.obs.resize(t.script.size()); t.bad.resize(t.script.size()); for (auto& x : t.obs) x.reserve(1024); }
+
+  std::atomic<uint32_t> ready{0};
+  std::atomic<bool> go{false};
+  std::atomic<int> inside{0};
+  std::vector<std::thread> threads;
+  for (uint32_t i = 0; i < sc.n; i++) {
+    threads.emplace_back([&, i] {
+      ColdThread& t = ths[i];
+      ready.fetch_add(1, std::memory_order_acq_rel);
+      unsigned spins = 0;
+      while (!go.load(std::memory_order_acquire)) { if (++spins > 20000) { sched_yield(); spins = 0; } }
+      for (size_t k = 0; k < t.script.size(); k++) {
+        for (uint32_t j = 0; j < t.script[k].spin * 4; j++) __builtin_ia32_pause();
+        int v = inside.fetch_add(1, std::memory_order_relaxed) + 1;
+        if (v > t.max_inside) t.max_inside = v;
+        t.obs[k] = cold_observe(t.script[k], t.bad[k]);
+        inside.fetch_sub(1, std::memory_order_relaxed);
+      }
+    });
+  }
+  { unsigned spins = 0; while (ready.load(std::memory_order_acquire) != sc.n) { if (++spins > 2000) { sched_yield(); spins = 0; } } }
+  go.store(true, std::memory_order_release);
+  for (std::thread& th : threads) th.join();
+
+  // ---- every operation again, alone (everything is initialised by now) ----
+  std::string fail_key, fail_msg;
+  int max_inside = 0;
+  uint32_t active = 0;
+  for (uint32_t i = 0; i < sc.n; i++) {
+    ColdThread& t = ths[i];
+    max_inside = std::max(max_inside, t.max_inside);
+    if (!t.script.empty()) active++;
+    for (size_t k = 0; k < t.script.size(); k++) {
+      std::string ref_bad;
+      std::string ref = cold_observe(t.script[k], ref_bad);
+      const char* name = kColdNames[t.script[k].op];
+      if (!fail_key.empty()) continue;
+      char head[160];
+      snprintf(head, sizeof head, "[cold start, thread %u of %u, its operation #%zu %s%s] ", i, sc.n, k, name, k == 0 ? " = first library action of the thread" : "");
+      if (t.obs[k] != ref) {
+        fail_key = std::string("coldstart-differs:") + name;
+        fail_msg = std::string(head) + "observed while the threads started together: {" + t.obs[k] + "} -- the same operation alone afterwards in the same process: {" + ref + "}";
+      } else if (!t.bad[k].empty()) {
+        fail_key = std::string("coldstart-insane:") + name;
+        fail_msg = std::string(head) + t.bad[k] + ": {" + t.obs[k] + "}";
+      } else if (!ref_bad.empty()) {
+        fail_key = std::string("coldstart-insane:") + name;
+        fail_msg = std::string(head) + "(single-threaded repetition) " + ref_bad + ": {" + ref + "}";
+      }
+    }
+  }
+  printf("COLD-CLS coldstart_max_simultaneously_inside_%s 1\n", max_inside >= 9 ? "9_16" : max_inside >= 5 ? "5_8" : max_inside >= 3 ? "3_4" : max_inside == 2 ? "2" : "0_1");
+  if (max_inside >= 2) printf("COLD-CLS coldstart_overlap_cases_two_or_more_threads_inside_operations 1\n");
+  printf("COLD-ACTIVE %u\n", active);
+  if (fail_key.empty()) printf("COLD-OK\n");
+  else {
+    for (char& ch : fail_msg) if (ch == '\n' || ch == '\t' || ch == '\r') ch = ' ';
+    printf("COLD-FAIL %s\t%s\n", fail_key.c_str(), fail_msg.c_str());
+  }
+  fflush(stdout);
+  _exit(fail_key.empty() ? 0 : 1);
+}
+
+// ---- the parent side ----------------------------------------------------------------------------------------------------
+struct ChildResult { int status = 0; bool spawned = false; std::string out, err; };
+
+static std::string slurp_fd(int fd, size_t cap) {
+  std::string s;
+  if (fd < 0 || lseek(fd, 0, SEEK_SET) < 0) return s;
+  char b[8192];
+  ssize_t n;
+  while (s.size() < cap && (n = read(fd, b, sizeof b)) > 0) s.append(b, size_t(n));
+  return s;
+}
+
+static ChildResult spawn_cold_child(const std::string& scenario, const std::string& suppressions) {
+  ChildResult r;
+  int fd_out = memfd_create("c11-cold-out", 0), fd_err = memfd_create("c11-cold-err", 0), fd_sup = -1;
+  std::string tsan;
+  if (const char* e = getenv("TSAN_OPTIONS")) { tsan = e; tsan += ":"; }
+  // halt_on_error=0: the child finishes its comparison after a report (a wrong observation is the more specific failure); its
+  // exit code is still 97 when anything was reported
+  tsan += "exitcode=97:halt_on_error=0:history_size=7:print_suppressions=1";
+  if (!suppressions.empty()) {
+    fd_sup = memfd_create("c11-cold-supp", 0);
+    if (fd_sup >= 0 && write(fd_sup, suppressions.data(), suppressions.size()) == ssize_t(suppressions.size())) {
+      char b[64]; snprintf(b, sizeof b, ":suppressions=/proc/self/fd/%d", fd_sup);
+      tsan += b;
+    }
+  }
+  std::vector<std::string> env_store;
+  for (char** e = environ; e && *e; e++) if (strncmp(*e, "TSAN_OPTIONS=", 13) != 0) env_store.emplace_back(*e);
+  env_store.push_back("TSAN_OPTIONS=" + tsan);
+  std::vector<char*> envp;
+  for (std::string& s : env_store) envp.push_back(&s[0]);
+  envp.push_back(nullptr);
+  std::string a0 = "/proc/self/exe", a1 = "--coldstart=" + scenario;
+  char* argv[] = {&a0[0], &a1[0], nullptr};
+  if (fd_out < 0 || fd_err < 0) { r.err = "memfd_create failed"; if (fd_out >= 0) close(fd_out); if (fd_err >= 0) close(fd_err); if (fd_sup >= 0) close(fd_sup); return r; }
+  fflush(stdout); fflush(stderr);
+  pid_t pid = fork();
+  for (int attempt = 0; pid < 0 && attempt < 5; attempt++) { sched_yield(); pid = fork(); }   // EAGAIN on a busy machine
+  if (pid == 0) {
+    dup2(fd_out, 1);
+    dup2(fd_err, 2);
+    execve("/proc/self/exe", argv, envp.data());
+    _exit(127);
+  }
+  if (pid > 0) {
+    r.spawned = true;
+    while (waitpid(pid, &r.status, 0) < 0 && errno == EINTR) {}
+    r.out = slurp_fd(fd_out, 1 << 20);
+    r.err = slurp_fd(fd_err, 1 << 20);
+  } else r.err = std::string("fork failed: ") + strerror(errno);
+  close(fd_out); close(fd_err); if (fd_sup >= 0) close(fd_sup);
+  return r;
+}
+
+// A ThreadSanitizer report of the child: key "coldstart-race:<global>" (or <first AsmJit function in the report>), short rendering.
+static void classify_tsan(const std::string& err, std::string* key, std::string* brief) {
+  std::string what;
+  size_t g = err.find("Location is global '");
+  if (g != std::string::npos) {
+    size_t a = g + 20, b = err.find('\'', a);
+    std::string name = err.substr(a, b == std::string::npos ? 0 : b - a);
+    size_t sp = name.find(' ');                                     // "vm_info (.0)": a compiler-split piece of the global
+    if (sp != std::string::npos) name.resize(sp);
+    size_t c = name.rfind("::");
+    what = c == std::string::npos ? name : name.substr(c + 2);
+  }
+  if (what.empty()) {
+    size_t a = err.find(" asmjit::");
+    if (a != std::string::npos) { a++; size_t b = a; while (b < err.size() && (isalnum((unsigned char)err[b]) || err[b] == ':' || err[b] == '_')) b++; what = err.substr(a, b - a); }
+  }
+  std::string k;
+  for (char ch : what) k += (isalnum((unsigned char)ch) || ch == '_' || ch == ':') ? ch : '_';
+  *key = k.empty() ? "coldstart-race" : "coldstart-race:" + k;
+  // short rendering: headline, access lines, location and the first frames of every stack
+  std::string out;
+  size_t p = err.find("WARNING: ThreadSanitizer");
+  if (p == std::string::npos) p = 0;
+  int frames = 0;
+  while (p < err.size() && out.size() < 1500) {
+    size_t q = err.find('\n', p);
+    if (q == std::string::npos) q = err.size();
+    std::string line = err.substr(p, q - p);
+    p = q + 1;
+    size_t f = line.find_first_not_of(' ');
+    if (f == std::string::npos) continue;
+    std::string t = line.substr(f);
+    if (t[0] == '#') {
+      if (++frames > 3) continue;
+      size_t m = t.find("+0x");                                     // drop " (module+0x...) (BuildId: ...)"
+      if (m != std::string::npos) { size_t sp = t.rfind(" (", m); if (sp != std::string::npos) t = t.substr(0, sp); }
+      size_t an; while ((an = t.find("(anonymous namespace)::")) != std::string::npos) t.erase(an, 23);
+      size_t bs; while ((bs = t.find("std::__cxx11::basic_string<char, std::char_traits<char>, std::allocator<char> >")) != std::string::npos) t.replace(bs, 79, "std::string");
+      out += " " + t;
+      continue;
+    }
+    if (t.rfind("SUMMARY", 0) == 0) break;
+    if (t.rfind("Thread T", 0) == 0 || t.rfind("As if synchronized", 0) == 0) { frames = 100; continue; }   // creation stacks: not shown
+    if (t.rfind("====", 0) == 0) continue;
+    frames = 0;
+    out += (out.empty() ? "" : " | ") + t;
+  }
+  *brief = out;
+}
+
+static bool cold_reaches(const ColdOp& o, int what) {   // what: 0 CpuInfo::host, 1 VirtMem::info, 2 large_page_size, 3 anonymous-memory strategy, 4 hardened-runtime detection
+  switch (what) {
+    case 0: return o.op == C_CPUINFO || o.op == C_RUNTIME || o.op == C_RT_ADD;
+    case 1: return o.op == C_VMINFO || o.op == C_ALLOCATOR || o.op == C_RUNTIME || o.op == C_RT_ADD;
+    case 2: return o.op == C_LARGEPAGE || (o.op == C_ALLOCATOR && (o.a & O_LARGE) && !(o.a & O_DUAL));
+    case 3: return o.op == C_DUALMAP || (o.op == C_ALLOCATOR && (o.a & O_DUAL));
+    default: return o.op == C_HARDENED || o.op == C_ALLOCATOR || o.op == C_RUNTIME || o.op == C_RT_ADD || o.op == C_DUALMAP;
+  }
+}
+
+static void run_mode_cold(const vh::Case& c, vh::Ctx& ctx) {
+  ColdScenario sc = decode_cold(c);
+  ctx.cls("coldstart_cases");
+  char b[96];
+  snprintf(b, sizeof b, "coldstart_threads_%02u", sc.n); ctx.cls(b);
+  std::vector<const ColdOp*> first(sc.n, nullptr);
+  std::vector<size_t> per(sc.n, 0);
+  uint32_t opmask = 0, firstmask = 0;
+  bool staggered = false;
+  for (const ColdOp& o : sc.ops) {
+    ctx.cls(std::string("coldstart_op_") + kColdNames[o.op]);
+    opmask |= 1u << o.op;
+    if (!first[o.thread]) { first[o.thread] = &o; firstmask |= 1u << o.op; ctx.cls(std::string("coldstart_first_action_") + kColdNames[o.op]); if (o.spin) staggered = true; }
+    else ctx.cls("coldstart_follow_up_operations");
+    per[o.thread]++;
+  }
+  uint32_t active = 0;
+  for (uint32_t i = 0; i < sc.n; i++) if (per[i]) active++;
+  ctx.cls(__builtin_popcount(firstmask) <= 1 ? "coldstart_mix_all_threads_same_first_action" : __builtin_popcount(firstmask) == 2 ? "coldstart_mix_two_first_actions" : "coldstart_mix_three_or_more_first_actions");
+  ctx.cls(staggered ? "coldstart_start_staggered" : "coldstart_start_not_staggered");
+  static const char* const kLazy[] = {"cpuinfo_host", "virtmem_info", "large_page_size", "anonymous_memory_strategy", "hardened_runtime"};
+  for (int w = 0; w < 5; w++) {
+    uint32_t k = 0;
+    for (const ColdOp* o : first) if (o && cold_reaches(*o, w)) k++;
+    if (k >= 2) { snprintf(b, sizeof b, "coldstart_first_use_of_%s_by_2_or_more_threads", kLazy[w]); ctx.cls(b); }
+  }
+  if (active == 0) { ctx.cls("coldstart_no_operations"); return; }
+
+  // Known findings "coldstart-race:<name>": ThreadSanitizer's report about exactly that global / function is suppressed in the
+  // child (the value oracle stays); the hits ThreadSanitizer prints at exit are counted as exclusions.
+  std::string supp;
+  std::vector<std::string> supp_names;
+  if (ctx.opts) for (const std::string& k : ctx.opts->known) {
+    if (k.rfind("coldstart-race:", 0) != 0 || k.find_first_of("*?[") != std::string::npos || k.size() <= 15) continue;
+    supp += "race:" + k.substr(15) + "\n";
+    supp_names.push_back(k.substr(15));
+  }
+
+  ChildResult r = spawn_cold_child(encode_cold(sc), supp);
+  std::string scen;
+  for (uint32_t i = 0; i < sc.n; i++) {
+    snprintf(b, sizeof b, "%st%u", i ? " " : "", i); scen += b;
+    for (const ColdOp& o : sc.ops) if (o.thread == i) { snprintf(b, sizeof b, ":%s%s", kColdNames[o.op], o.spin ? "~" : ""); scen += b; }
+  }
+  auto flat = [](std::string s, size_t cap) { if (s.size() > cap) s = s.substr(0, cap) + " ..."; for (char& ch : s) if (ch == '\n' || ch == '\r' || ch == '\t') ch = ' '; return s; };
+  if (!r.spawned) ctx.fail("coldstart-spawn-failed", "could not start the cold-start child process: " + flat(r.err, 300));
+
+  // suppression hits ("<n> race:<name>" lines printed by ThreadSanitizer at exit)
+  for (const std::string& nm : supp_names) {
+    size_t p = r.err.find(" race:" + nm + "\n");
+    if (p == std::string::npos) continue;
+    size_t a = r.err.rfind('\n', p);
+    a = a == std::string::npos ? 0 : a + 1;
+    if (atol(r.err.c_str() + a) > 0) ctx.known_excluded("coldstart-race:" + nm);
+  }
+  for (size_t p = 0; (p = r.out.find("COLD-CLS ", p)) != std::string::npos; p += 9) {
+    if (p && r.out[p - 1] != '\n') continue;
+    size_t e = r.out.find(' ', p + 9);
+    if (e != std::string::npos && r.out.find('\n', p) > e) ctx.cls(r.out.substr(p + 9, e - p - 9), uint64_t(std::max(1L, atol(r.out.c_str() + e + 1))));
+  }
+
+  if (WIFSIGNALED(r.status)) {
+    int sig = WTERMSIG(r.status);
+    snprintf(b, sizeof b, "cold-start child (%u threads) was killed by signal %d%s; scenario ", sc.n, sig, sig == SIGALRM ? " (150 s watchdog: deadlock or livelock during first use?)" : "");
+    ctx.fail_unless_known(sig == SIGALRM ? "coldstart-hang" : "coldstart-crash", b + scen + "; stderr: " + flat(r.err.size() > 1200 ? r.err.substr(r.err.size() - 1200) : r.err, 1300));
+    return;
+  }
+  int code = WEXITSTATUS(r.status);
+  bool tsan_report = r.err.find("WARNING: ThreadSanitizer") != std::string::npos;
+  size_t fp = r.out.find("COLD-FAIL ");
+  if (fp != std::string::npos && (fp == 0 || r.out[fp - 1] == '\n')) {
+    size_t tab = r.out.find('\t', fp), nl = r.out.find('\n', fp);
+    if (tab != std::string::npos && nl != std::string::npos && tab < nl) {
+      std::string key = r.out.substr(fp + 10, tab - fp - 10), also;
+      if (tsan_report) { std::string rk, brief; classify_tsan(r.err, &rk, &brief); also = " ; ThreadSanitizer in the same child (" + rk + "): " + flat(brief, 500); }
+      if (!ctx.fail_unless_known(key, flat(r.out.substr(tab + 1, nl - tab - 1), 1500) + " ; scenario " + scen + also)) return;
+    }
+  }
+  if (code == 97 || tsan_report) {
+    std::string key, brief;
+    classify_tsan(r.err, &key, &brief);
+    snprintf(b, sizeof b, "cold-start child (%u threads) ended with exit code %d, ThreadSanitizer: ", sc.n, code);
+    ctx.fail_unless_known(key, b + flat(brief, 1500) + " ; scenario " + scen);
+    return;
+  }
+  if (fp != std::string::npos) return;   // a known semantic finding, nothing else to say
+  if (code != 0 || r.out.find("COLD-OK\n") == std::string::npos) {
+    snprintf(b, sizeof b, "cold-start child (%u threads) ended with exit code %d without a verdict; scenario ", sc.n, code);
+    ctx.fail_unless_known("coldstart-crash", b + scen + "; stderr: " + flat(r.err.size() > 1200 ? r.err.substr(r.err.size() - 1200) : r.err, 1300));
+    return;
+  }
+  snprintf(b, sizeof b, "coldstart_active_threads_%s", active >= 9 ? "9_16" : active >= 5 ? "5_8" : active >= 3 ? "3_4" : active == 2 ? "2" : "0_1"); ctx.cls(b);
+  if (active >= 2) {
+    // counted like ctx.nontrivial() (distinct = distinct case text), but the sweep runs first in every worker and must not use up
+    // the evidence samples: two workers contribute one rendering each
+    ctx.sub_nontrivial(vh::hash_str(c.to_text()));
+    static bool sampled = false;
+    if (!sampled && ctx.opts && ctx.opts->worker % 4 == 0 && ctx.samples.size() < ctx.max_samples) {
+      sampled = true;
+      snprintf(b, sizeof b, " | %u active, child verdict OK, exit code %d", active, code);
+      ctx.samples.push_back("cold start in a fresh process, " + std::to_string(sc.n) + " threads released together: " + scen + b);
+    }
+  }
+}
+
+} // namespace
+
+// Child entry: `c11 --coldstart=<scenario>` (spawned by run_mode_cold). Runs before anything else of the harness.
+void vh_init(const vh::Opts& o, vh::Ctx&) {
+  auto it = o.kv.find("coldstart");
+  if (it != o.kv.end()) cold_child_main(it->second);
+}
+
 // ====================================================================================================================
 // Generator
 // ====================================================================================================================
 rc::Gen<vh::Case> vh_gen(const vh::Opts& o) {
   using namespace rc;
   long force_mode = o.geti("mode", -1), force_threads = o.geti("threads", -1), max_threads = o.geti("max-threads", 16);
+  long cold_pct = force_mode == M_COLD ? 100 : force_mode >= 0 ? 0 : o.geti("cold-pct", 8);
+  // cold start: every thread gets one first action (a quarter of the threads a follow-up operation as well)
+  auto coldGen = gen::exec([=]() -> vh::Case {
+    int t = *vh::irange<int>(0, 99);
+    int n = t < 18 ? 2 : t < 42 ? *vh::irange<int>(3, 4) : t < 72 ? *vh::irange<int>(5, 8) : *vh::irange<int>(9, 16);
+    if (force_threads >= 2) n = int(force_threads);
+    n = int(std::min<long>(n, std::max<long>(2, max_threads)));
+    auto pick = [] {
+      int w = *vh::irange<int>(0, 99);
+      return w < 22 ? C_CPUINFO : w < 40 ? C_RUNTIME : w < 50 ? C_VMINFO : w < 58 ? C_LARGEPAGE : w < 72 ? C_ALLOCATOR : w < 82 ? C_RT_ADD : w < 86 ? C_ENVHOST : w < 92 ? C_HARDENED : C_DUALMAP;
+    };
+    int same = *vh::irange<int>(0, 99) < 25 ? pick() : -1;
+    bool stagger = *vh::irange<int>(0, 99) < 40;
+    vh::Case c;
+    c.cfg = {M_COLD, n, 0};
+    auto one = [&](int thread, int op) {
+      int spin = stagger && *vh::irange<int>(0, 99) < 60 ? *vh::irange<int>(1, 1500) : 0;
+      c.ops.push_back(vh::Op{thread, op, *vh::irange<int>(0, 0x1FF), *vh::irange<int>(0, 65535), spin});
+    };
+    for (int i = 0; i < n; i++) one(i, same >= 0 ? same : pick());
+    for (int i = 0; i < n; i++) if (*vh::irange<int>(0, 99) < 25) one(i, pick());
+    return c;
+  });
   auto cfgGen = gen::exec([=]() -> std::vector<int64_t> {
     auto pct = [](int p) { return *vh::irange<int>(0, 99) >= 100 - p; };
     int m = *vh::irange<int>(0, 99);
@@ -1464,7 +2082,7 @@ rc::Gen<vh::Case> vh_gen(const vh::Opts& o) {
     int64_t gsel = g < 40 ? 0 : g < 55 ? 1 : g < 80 ? 2 : 3;
     return std::vector<int64_t>{mode, n, opt, bsel, gsel, *vh::irange<int>(0, 2)};
   });
-  return gen::mapcat(cfgGen, [](const std::vector<int64_t>& cfg) {
+  auto warmGen = gen::mapcat(cfgGen, [](const std::vector<int64_t>& cfg) {
     int mode = int(cfg[0]);
     int n = int(cfg[1]);
     auto opGen = gen::exec([mode, n]() -> vh::Op {
@@ -1509,9 +2127,48 @@ rc::Gen<vh::Case> vh_gen(const vh::Opts& o) {
     return gen::map(opsGen, [cfg](std::vector<vh::Op> ops) {
       vh::Case c; c.cfg = cfg; c.ops = std::move(ops); return c; });
   });
+  if (cold_pct <= 0) return warmGen;
+  if (cold_pct >= 100) return coldGen;
+  return gen::mapcat(vh::irange<int>(0, 99), [=](int r) { return r >= 100 - int(cold_pct) ? coldGen : warmGen; });
+}
+
+// Deterministic sweep of cold-start cases run before the generated ones: thread counts x (every operation as the common first
+// action + mixes of operations that meet in the same lazily initialised state), repeated --cold-sweep times (every run of the
+// same case is another schedule). Worker w takes the cases with index % workers == w.
+bool vh_enum(const vh::Opts& o, uint64_t k, vh::Case& out) {
+  static const int kThreads[] = {2, 3, 4, 6, 8, 12, 16};
+  static const int kMixes[][4] = {
+    {C_CPUINFO, C_RUNTIME, -1, -1}, {C_RUNTIME, C_RT_ADD, -1, -1}, {C_CPUINFO, C_RT_ADD, C_RUNTIME, -1}, {C_VMINFO, C_ALLOCATOR, C_LARGEPAGE, -1},
+    {C_ALLOCATOR, C_DUALMAP, C_HARDENED, -1}, {C_VMINFO, C_RUNTIME, C_HARDENED, C_LARGEPAGE}, {C_CPUINFO, C_VMINFO, C_ALLOCATOR, C_DUALMAP}};
+  constexpr uint64_t kPerThreads = C_COUNT + 7 + 3;
+  constexpr uint64_t kSweep = 7 * kPerThreads;
+  long force_mode = o.geti("mode", -1);
+  if (force_mode >= 0 && force_mode != M_COLD) return false;
+  uint64_t reps = uint64_t(std::max(0L, o.geti("cold-sweep", o.is_thorough() ? 6 : 1)));
+  uint64_t workers = uint64_t(std::max(1, o.workers));
+  uint64_t idx = k * workers + uint64_t(std::max(0, o.worker)) % workers;
+  if (idx >= reps * kSweep) return false;
+  uint64_t rep = idx / kSweep, j = idx % kSweep;
+  int n = kThreads[j / kPerThreads];
+  uint64_t v = j % kPerThreads;
+  out = vh::Case();
+  out.cfg = {M_COLD, n, int64_t(rep)};
+  uint64_t s = (rep + 1) * 1000003 + j;
+  for (int i = 0; i < n; i++) {
+    int op, spin = 0;
+    if (v < C_COUNT) op = int(v);                                                       // every thread the same first action
+    else if (v < C_COUNT + 7) { const int* m = kMixes[v - C_COUNT]; int len = 0; while (len < 4 && m[len] >= 0) len++; op = m[i % len]; }
+    else if (v == C_COUNT + 7) { op = i == 0 ? C_RUNTIME : C_CPUINFO; spin = i * 40; }          // staggered: later threads arrive while the first is still detecting
+    else if (v == C_COUNT + 8) { op = i % 2 ? C_RT_ADD : C_RUNTIME; spin = (i / 2) * 25; }
+    else { op = i; op %= C_COUNT; }                                                     // all operations round robin
+    int64_t a = int64_t(mix(s) & 0x1FF), b = int64_t(mix(s) & 0xFFFF);
+    out.ops.push_back(vh::Op{i, op, a, b, spin});
+  }
+  return true;
 }
 
 static void run_once(const vh::Case& c, vh::Ctx& ctx) {
+  if (is_cold_case(c)) { run_mode_cold(c, ctx); return; }   // a new cfg value: every older case decodes as before
   host_init();
   int mode = int((c.cfg.empty() ? 0 : u(c.cfg[0])) % M_COUNT);
   if (mode == M_ALLOC) run_mode_alloc(c, ctx);
